@@ -11,6 +11,7 @@ import (
 	"github.com/xjslang/xjs/lexer"
 	"github.com/xjslang/xjs/parser"
 	"github.com/xjslang/xjs/sourcemap"
+	"github.com/xjslang/xjs/token"
 )
 
 // Mode is a parser mode combination.
@@ -312,4 +313,56 @@ func dumpTree(root any) string {
 	}
 	walk(reflect.ValueOf(root), 0)
 	return b.String()
+}
+
+// processWarmup uses differently configured builders, parsers and compilers once (smart / tolerant modes,
+// plugin operators on custom and built-in tokens registered in every role combination, interceptors, pretty
+// printing with source map). The properties quantify over programs for ANY history of other instances in the
+// same process; running this first makes every enumeration of a worker a "non-initial state" exploration:
+// state leaking from another configuration changes what the reference comparison sees.
+func processWarmup() {
+	defer func() { recover() }()
+	for _, m := range Modes {
+		for _, src := range []string{"a\n(b)\n[c]", "let x = 1 let y = 2", "{ a", "x = `t`\n++y // c"} {
+			parseMode(src, m)
+		}
+	}
+	type role struct{ pre, in, post bool }
+	for _, r := range []role{{false, false, true}, {false, true, false}, {true, false, false}, {true, false, true}, {true, true, false}} {
+		for _, builtin := range []bool{false, true} {
+			lb := lexer.NewBuilder()
+			ty := lb.RegisterTokenType("warm")
+			if builtin {
+				ty = token.NOT
+			} else {
+				lb.UseTokenInterceptor(func(l *lexer.Lexer, next func() token.Token) token.Token {
+					t := next()
+					if t.Type == token.IDENT && t.Literal == "W" {
+						t.Type = ty
+					}
+					return t
+				})
+			}
+			pb := parser.NewBuilder(lb).WithSmartSemicolon(true)
+			if r.pre {
+				pb.RegisterPrefixOperator(ty, func(tok token.Token, right func() ast.Expression) ast.Expression { return right() })
+			}
+			if r.in {
+				pb.RegisterInfixOperator(ty, parser.SUM, func(tok token.Token, left ast.Expression, right func() ast.Expression) ast.Expression {
+					right()
+					return left
+				})
+			}
+			if r.post {
+				pb.RegisterPostfixOperator(ty, func(tok token.Token, left ast.Expression) ast.Expression { return left })
+			}
+			pb.UseStatementInterceptor(func(p *parser.Parser, next func() ast.Statement) ast.Statement { return next() })
+			for _, src := range []string{"a W b; W a; a W", "a ! b; a !", "f(a)\n(b)"} {
+				o := parseWith(pb, src)
+				if o.Prog != nil && o.Err == nil {
+					compileCfg(o.Prog, Cfg{Pretty: true, Indent: 0, Semi: 0, Map: true})
+				}
+			}
+		}
+	}
 }
